@@ -32,7 +32,7 @@ def jobs_for(prop, tier):
         return [
             dict(name='paths2-q22', script=w, args=base + ['--mode', 'paths2', '--universe', 'q22', '--fraction', '1.0'], module=T, cfg=cfg, shards=64),
             dict(name='edges-t33', script=w, args=base + ['--mode', 'edges', '--universe', 't33'], module=T, cfg=cfg, shards=128),
-            dict(name='walks', script=w, args=base + ['--mode', 'walks', '--count', '48000', '--steps', '55'], module=T, cfg=cfg, shards=48),
+            dict(name='walks', script=w, args=base + ['--mode', 'walks', '--count', '16000', '--steps', '50'], module=T, cfg=cfg, shards=96),
         ]
     if tier == 'quick':
         return [
@@ -42,7 +42,7 @@ def jobs_for(prop, tier):
     return [
         dict(name='pairs-q21', script=w, args=base + ['--mode', 'pairs', '--universe', 'q21'], module=T, cfg=cfg),
         dict(name='pairs-q22', script=w, args=base + ['--mode', 'pairs', '--universe', 'q22', '--fraction', '0.04'], module=T, cfg=cfg, shards=64),
-        dict(name='walks', script=w, args=base + ['--mode', 'walks', '--count', '32000', '--steps', '55'], module=T, cfg=cfg, shards=48),
+        dict(name='walks', script=w, args=base + ['--mode', 'walks', '--count', '12000', '--steps', '50'], module=T, cfg=cfg, shards=96),
     ]
 
 
